@@ -12,13 +12,10 @@ namespace K
 variable {α : Type} [Add α] [Sub α] [Mul α] [Div α] [Neg α] [LT α] [LE α]
   [DecidableLT α] [DecidableLE α] [OfScientific α] [KOps α]
 
-/-- mirrors: frame.rs::interpolate_frame (4-point, 3rd-order Hermite, x-form; all `f32`) -/
+/-- mirrors: frame.rs::interpolate_frame (4-point, 3rd-order Hermite, x-form; all `f32`) — generated (GenFn.lean) -/
 def interpolateFrame (previous current next1 next2 : Frame α) (fraction : α) : Frame α :=
-  let c0 := current
-  let c1 := (next1.sub previous).scale (0.5 : α)
-  let c2 := ((previous.sub (current.scale (2.5 : α))).add (next1.scale (2.0 : α))).sub (next2.scale (0.5 : α))
-  let c3 := ((next2.sub previous).scale (0.5 : α)).add ((current.sub next1).scale (1.5 : α))
-  (((((c3.scale fraction).add c2).scale fraction).add c1).scale fraction).add c0
+  gen_body% Gen.interpolateFrame previous current next1 next2 fraction
+gen_alias Gen.interpolateFrame => interpolateFrame
 
 /-! ### resampler -/
 
